@@ -84,6 +84,39 @@ def run(ck):
             if tot <= 4 * po and bt != 'biotype=0':
                 w = {'kind': 'premise2-not-protein', 'seqs': seqs, 'impl': r, 'counts': m}
                 ck.violation('witness', w, signature='U-rich' if u > 0 else None)
+    # large data sets, at the level of the letter histogram (counts are C ints; spelling out millions of residues is not needed to
+    # exercise the sums): nucleotide-only histograms and protein histograms with counts from 10^6 up to the int range
+    hl, hmeta = [], []
+    NUCL = 'ACGTUNacgtun'; POL = 'DEFHIKLMPQRSVWYdefhiklmpqrsvwy'
+    for k in range(40 if ck.tier == 'quick' else 600):
+        big = rng.choice([1000001, 2147484, 2200000, 4300000, 21474837, 300000000, 2147483647])
+        if k % 2 == 0:      # premise 1
+            letters = [ch for ch in NUCL if rng.chance(2, 3)] or ['A']
+            if k % 4 == 0: letters = [x for x in letters if x not in 'Uu'] or ['A']
+            cnt = {ch: rng.range(1, big) if rng.chance(1, 2) else rng.range(1, 5000) for ch in letters}
+            cnt[rng.choice(letters)] = big if k % 3 else rng.range(big // 2, big)
+            prem = 'p1'
+        else:               # premise 2 without U: at least a quarter protein-only letters
+            po = {ch: rng.range(1, big // 8 + 2) for ch in POL if rng.chance(1, 2)} or {'W': big // 8 + 1}
+            npo = sum(po.values())
+            oth = {}
+            budget = 3 * npo
+            for ch in 'ACGTNacgtnBZXbzx':
+                if budget > 0 and rng.chance(1, 2):
+                    v = rng.range(0, min(budget, 2147483647)); oth[ch] = v; budget -= v
+            cnt = dict(po); cnt.update(oth); prem = 'p2'
+        cnt = {ch: min(v, 2147483647) for ch, v in cnt.items() if v > 0}
+        hl.append('detecth ' + ' '.join('%d:%d' % (ord(ch), v) for ch, v in sorted(cnt.items())))
+        hmeta.append((prem, cnt))
+        ck.count('histogram-level case (counts up to %s): %s' % ('10^7' if max(cnt.values()) < 10**7 else 'the int range', prem))
+    hdis, himpl, hmod = ck.correspond('Detect.detect_alphabet vs msa_op.c detect_alphabet on histograms with large counts', hl, kvh, canon=lambda x: ' '.join(x.split()[:3]))
+    dis = list(dis) + list(hdis)
+    for (prem, cnt), ln, r, m in zip(hmeta, hl, himpl, hmod):
+        bt = r.split()[0]
+        if prem == 'p1' and bt != 'biotype=1':
+            wit.append({'kind': 'premise1-not-nucleotide', 'letter_counts': cnt, 'impl': r})
+        if prem == 'p2' and bt != 'biotype=0':
+            wit.append({'kind': 'premise2-not-protein', 'letter_counts': cnt, 'impl': r})
     # the same premises through the readers: residues embedded in gap characters / padding (aligned FASTA, Clustal-like padding)
     from props.runner import FileRunner
     from props.c04 import render_clu, render_msf
@@ -109,6 +142,9 @@ def run(ck):
             if fmtk == 'afa':
                 txt = ''.join('>s%d\n%s\n' % (i, r) for i, r in enumerate(rows))
             elif fmtk == 'afa-named':
+                if rng.chance(1, 3):     # header lines far beyond any line buffer (merged database deflines): still names, never residues
+                    nm = [n + ' ' + gen.rand_seq(rng, 'WFYLIKEDQRSHVMP ' if prem == 'p1' else 'UUUUACGTN ', rng.choice([4090, 4200, 6000, 9000])) for n in nm]
+                    ck.count('reader-format: FASTA header lines of 4 to 9 KiB')
                 txt = ''.join('>%s\n%s\n' % (n, r) for n, r in zip(nm, rows))
             elif fmtk == 'clustal':
                 txt = render_clu(nm, [r.replace('.', '-') for r in rows], 60, 0)
